@@ -24,7 +24,8 @@
 (*                                                                         *)
 (* Invariants (TypesRes.cfg) restate the sentences of the property about   *)
 (* the required function: comparisons keep length and scalability, cmpxchg *)
-(* yields {T, i1}, calls yield the callee's return type, casts their       *)
+(* yields {T, i1}, calls yield the callee's return type (and Sig() is the  *)
+(* function type the callee points to, CallSig), casts their               *)
 (* target, extractvalue / insertvalue follow the index path, shuffles take *)
 (* the mask's length.  TypesResDeviation.cfg checks ImplAgrees for the     *)
 (* rules as implemented (comparisons and shuffles build the result vector  *)
@@ -36,7 +37,9 @@
 (* (b) renders a function that uses the result at type `want` -- llvm-as   *)
 (* accepting it validates `want` against LLVM -- and (c) parses that text  *)
 (* with asm and compares the parser-attached type and the type the ir      *)
-(* package recomputes after the cached Typ field is cleared.               *)
+(* package recomputes after the cached Typ field is cleared; for call-like *)
+(* kinds Sig() of the constructed and of the parsed value is compared with *)
+(* `sig`.  TypesHist.tla extends this module with histories of one value.  *)
 (***************************************************************************)
 EXTENDS Types, Json, IOUtils
 
@@ -268,6 +271,14 @@ CallRet == At2 /\ cs.kind \in CallKinds =>
              /\ ~DC.ops[1].e.va => \A sp \in {"short", "full"} : [cs EXCEPT !.x.sp = sp] \in CasesOf(cs.kind)
              \* a cast callee has another return type than its source function
              /\ DC.x.cf = "bitcast" => DC.x.src.ret # Res /\ DC.x.src.va # DC.ops[1].e.va
+\* Sig() of a call-like instruction is the function type its callee operand points to -- whatever the callee is
+\* made from -- and the instruction is consistent with it: the result is its return type, the arguments are its
+\* parameters (a variadic signature admits more arguments than parameters)
+CallSig == At2 /\ cs.kind \in CallKinds =>
+             LET s == DC.ops[1].e IN
+             /\ DC.ops[1].k = "ptr" /\ s.k = "func" /\ Res = s.ret
+             /\ Len(s.ps) <= Len(DC.ops) - 1 /\ (~s.va => Len(s.ps) = Len(DC.ops) - 1)
+             /\ \A i \in 1..Len(s.ps) : s.ps[i] = DC.ops[i + 1]
 CastTarget == At2 /\ cs.kind \in CastKinds => Res = DC.x.to
 AggPathFollowed == /\ At2 /\ cs.kind = "extractvalue" => AggPathOK(UR, DC.ops[1], DC.x.idx) /\ Res = AggPath(UR, DC.ops[1], DC.x.idx)
                    /\ At2 /\ cs.kind = "insertvalue" => Res = DC.ops[1] /\ DC.ops[2] = AggPath(UR, DC.ops[1], DC.x.idx)
@@ -309,5 +320,6 @@ Out(rec) == Serialize(ToJson(rec) \o "\n", "res_cases.ndjson",
                        openOptions |-> <<"WRITE", "CREATE", "APPEND">>]).exitValue = 0
 EmitOK == Emit =>
             /\ stage = 0 => Out([defs |-> UR])
-            /\ At2 => Out([kind |-> cs.kind, form |-> cs.form, ops |-> cs.ops, x |-> cs.x, want |-> Res])
+            /\ At2 => Out([kind |-> cs.kind, form |-> cs.form, ops |-> cs.ops, x |-> cs.x, want |-> Res,
+                            sig |-> IF cs.kind \in CallKinds THEN Deref(UR, DC.ops[1].e) ELSE TVoid])
 =============================================================================
